@@ -110,7 +110,9 @@ func runC01(c *ctx) {
 	c.res.Rule += "; key material chains keygen -> (refresh | restore)* with a signing session after every step (FROST and FROST-Taproot n=2..4, Doerner two refreshes, " +
 		"CMP one refresh then sign and presign+online; thorough: more shapes, CMP refresh twice + restore): every all-honest session completes and every signature is valid " +
 		"under the group key recorded when key generation ended"
-	if c.replay != "" && c.c01Replay() {
+	c.res.Rule += "; application-like use (retained.go): ONE in-memory object per party reused for derive x2, sign with parent / children / parent again, refresh, derive again, sign -- " +
+		"signatures judged under the independently computed BIP-32 key, input objects compared with their serialisation after every API call"
+	if c.replay != "" && (c.retReplayRun("C01") || c.c01Replay()) {
 		return
 	}
 	pols := []string{"fifo", "lifo", "latest-first", "random"}
@@ -191,6 +193,8 @@ func runC01(c *ctx) {
 	c.c01Concurrent()
 	// ---- refreshed / restored key material (FROST, FROST-Taproot, Doerner; CMP below) ----
 	c.c01ChainsLight()
+	// ---- one in-memory object per party, reused across derive / sign / refresh (FROST, FROST-Taproot, Doerner; CMP below) ----
+	c.c01RetainedAll("C01", nil, nil)
 	// ---- CMP ----
 	usePrimeCache()
 	ids := idsOf("alice", "bob", "carl")
@@ -238,6 +242,7 @@ func runC01(c *ctx) {
 			mat = append(mat, cfgs[id])
 		}
 		c.c01ChainCMP(mat, ids)
+		c.c01Retained(retReplay{Scenario: "derive-sign-refresh", Prop: "C01", Proto: "cmp", N: 3, T: 1, IDs: []string{"alice", "bob", "carl"}, Seed: c.res.Seed*7919 + 111, Signs: true, Light: !c.thorough()}, mat)
 	}
 	_ = bytes.Equal
 	_ = cmp.Keygen
